@@ -11,6 +11,8 @@ def run(ctx: Ctx) -> None:
     ctx.floor("E7.wrapper-forward", 40)
     from ..tables import t17_regularisers
     t17_regularisers.run_regularisers(ctx)
+    t17_regularisers.run_bspline_bending(ctx)
+    ctx.floor("T17.bspline-bending", 6)
     t17_regularisers.run_lame(ctx)
     t17_regularisers.run_inverse_consistency(ctx)
     t17_regularisers.run_module_values(ctx)
@@ -56,6 +58,9 @@ def mutants(prog):
         ("fd spacing of the first item", "deepali.core.image", "spatial_derivatives", "fd_spacing = spacing[:, sdim]", "fd_spacing = spacing[0, sdim]", "T5.batch-spacing"),
         ("GradLoss: q=0 conflated with None", "deepali.losses.flow", "GradLoss.__init__", "self.q = 1 / p if q is None else q", "self.q = q or 1 / p", "T17.module-values"),
         ("elasticity: shear term skipped when lambda is zero", L, "elasticity_loss", "if mu != 0:", "if mu != 0 and lambd != 0:", "T17.values"),
+        ("bspline_bending_loss evaluates finite differences", L, "bspline_bending_loss", "mode='bspline', stride", "mode='central', stride", "T17.bspline-bending"),
+        ("BSplineBending evaluates finite differences", "deepali.losses.bspline", "BSplineBending.forward", "mode='bspline', stride", "mode='central', stride", "T17.bspline-bending"),
+        ("bending: mixed terms weighted once (spline route)", L, "bending_loss", "value = value.mul_(2)", "value = value.mul_(1)", "T17.bspline-bending"),
         ("elasticity: trace term skipped when mu is zero", L, "elasticity_loss", "if lambd != 0:", "if lambd != 0 and mu != 0:", "T17.values"),
     ]
     for name, mod, fn, old, new, expect in specs:
